@@ -146,12 +146,29 @@ def initial_for(ftype, token, palette=None):
     return 7
 
 
+def resolve_col(v, names):
+    """An abstract db_column value: "@f" stands for "the column field f has by default" (a rename that
+    keeps its column), anything else is the literal column name."""
+    if isinstance(v, str) and v.startswith('@'):
+        return names.field(v[1:])
+    return v
+
+
+def abstract_col(v, names):
+    """Inverse of resolve_col for values read from real signatures / mutations."""
+    if isinstance(v, str) and v in names.rfields and names.rfields[v] != v:
+        return '@' + names.rfields[v]
+    return v
+
+
 def concrete_attrs(attrs, names):
     out = {}
     for k, v in as_dict(attrs).items():
         if k == 'related_model':
             out[k] = names.rel(v)
-        elif k in ('db_column', 'db_table'):
+        elif k == 'db_column':
+            out[k] = resolve_col(v, names)
+        elif k in ('db_table',):
             out[k] = v
         else:
             out[k] = v
@@ -199,7 +216,7 @@ def make_mutation(mu, names, cur_sig=None, palette=None):
     if k == 'RenF':
         kwargs = {}
         if mu.get('dbcol', NONE) != NONE:
-            kwargs['db_column'] = mu['dbcol']
+            kwargs['db_column'] = resolve_col(mu['dbcol'], names)
         if mu.get('dbtable', NONE) != NONE:
             kwargs['db_table'] = mu['dbtable']
         return RenameField(names.model(mu['m']), names.field(mu['of']),
@@ -359,7 +376,7 @@ def project_mutation(m, names):
     elif isinstance(m, RenameField):
         rec.update(k='RenF', m=rm(m.model_name), f=rf(m.field_name),
                    of=rf(m.old_field_name), nf=rf(m.new_field_name),
-                   dbcol=m.db_column or NONE, dbtable=m.db_table or NONE)
+                   dbcol=abstract_col(m.db_column, names) if m.db_column else NONE, dbtable=m.db_table or NONE)
     elif isinstance(m, RenameModel):
         rec.update(k='RenM', m=rm(m.model_name), om=rm(m.old_model_name),
                    nm=rm(m.new_model_name),
@@ -411,6 +428,8 @@ def project_sig(project_sig, names):
             for key, v in fs.field_attrs.items():
                 if key == 'related_model':
                     attrs[key] = names.rrel(v)
+                elif key == 'db_column':
+                    attrs[key] = abstract_col(v, names)
                 else:
                     attrs[key] = v
             fields[names.rfields.get(fs.field_name, fs.field_name)] = {
@@ -494,7 +513,8 @@ def short(mu):
     if k == 'Del':
         return 'Del(%s.%s)' % (mu['m'], mu['f'])
     if k == 'RenF':
-        return 'RenF(%s.%s->%s)' % (mu['m'], mu['of'], mu['nf'])
+        return 'RenF(%s.%s->%s%s)' % (mu['m'], mu['of'], mu['nf'],
+                                      (' col=' + str(mu['dbcol'])) if mu.get('dbcol', NONE) not in (NONE, None) else '')
     if k == 'RenM':
         return 'RenM(%s->%s)' % (mu['om'], mu['nm'])
     if k == 'DelM':
